@@ -63,6 +63,8 @@ class BaseCurve(Intface_BaseCurve):
         othercopy = copy(other)
         othercopy.knotvector = newknotvec
         for poi, qoi in zip(selfcopy.ctrlpoints, othercopy.ctrlpoints):
+            if np.shape(poi) != np.shape(qoi):
+                return False
             if norm(poi - qoi) > 1e-9:
                 return False
         return True
